@@ -82,6 +82,28 @@ def applyRequest (m : Mach U) (t : Transition) (index : Nat) : Mach U :=
         let (root, w) := (m.root.mark p).1.fwdActive rq w
         { m with root := root, w := w }
 
+/-- `R_::applyRequest` with `index = INVALID_SHORT`: the same marks, nothing is pinned (`ControlT::pinLastTransition`
+ignores the invalid index).  Used by the replays for the entries of a history beyond the capacity of
+`previousTransitions` (they are not recorded, so they cannot be pinned; /repo fix 6770c20). -/
+def applyRequestNoPin (m : Mach U) (t : Transition) : Mach U :=
+  let w := m.w.snapshot m.root true false
+  match t.kind with
+  | .schedule =>
+    match m.root.pathTo t.dest with
+    | some p => { m with root := m.root.schedule p, w := w }
+    | none => { m with w := w.fail' "schedule of an unknown state" }
+  | k =>
+    let rq : Req := { kind := k, index := none }
+    if t.dest = 0 then
+      let (root, w) := m.root.request rq w
+      { m with root := root, w := w }
+    else
+      match m.root.pathTo t.dest with
+      | none => { m with w := w.fail' "request to an unknown state" }
+      | some p =>
+        let (root, w) := (m.root.mark p).1.fwdActive rq w
+        { m with root := root, w := w }
+
 /-- Apply `requests[from…]` in order with their queue indices. -/
 def applyAll (m : Mach U) : List Transition → Nat → Mach U
   | [], _ => m
@@ -247,7 +269,7 @@ def load (m : Mach U) (st : List Bool) : Mach U :=
 def applyRequests (m : Mach U) (ts : List Transition) : Mach U × Bool :=
   let backup := m.root
   let m := { m with w := m.w.freshControl }
-  let m := ts.zipIdx.foldl (fun m (t, i) => m.applyRequest t i) m
+  let m := ts.zipIdx.foldl (fun m (t, i) => if i < m.w.cfg.historyCap then m.applyRequest t i else m.applyRequestNoPin t) m
   (m, m.root.marksDiffer backup)
 
 /-- `R_::replayTransitions`. -/
@@ -256,7 +278,7 @@ def replayTransitions (m : Mach U) (ts : List Transition) : Mach U × Bool :=
   if ts.isEmpty then (m, false) else
   let (m, changed) := m.applyRequests ts
   if changed then
-    let w := ({ m.w.freshControl with previous := ts }).snapshot m.root false false
+    let w := ({ m.w.freshControl with previous := ts.take m.w.cfg.historyCap }).snapshot m.root false false
     let (root, w) := m.root.commit w
     (({ m with root := root.clearMarks, w := w }).updateActivity, true)
   else (m, false)
@@ -269,7 +291,7 @@ def replayEnter (m : Mach U) (ts : List Transition) : Mach U × Bool :=
   let (root, w) := m.root.request { kind := .change, index := none } w
   let (m, changed) := ({ m with root := root, w := w }).applyRequests ts
   if changed then
-    let w := ({ m.w.freshControl with previous := ts }).snapshot m.root false false
+    let w := ({ m.w.freshControl with previous := ts.take m.w.cfg.historyCap }).snapshot m.root false false
     let (root, w) := m.root.enter w
     (({ m with root := root.clearMarks, w := w }).updateActivity, true)
   else (m, false)
